@@ -37,6 +37,21 @@ Example C19_newcounter_is_source_ex :
   @DN.NewCounter Z (list Z) (fun s => (s, 0, true)) (fun s => s) 4 = FnRt.Panic (FnRt.PMsg "seed RNG: %v").
 Proof. split; reflexivity. Qed.
 
+(* The same, field by field and without the anchors: when Read succeeds the Counter has an empty
+   allocated buffer, cap = size exactly, p = 2^64-1, and the source made from the seed Read wrote. *)
+Theorem C19_newcounter_fields_source :
+  forall (T : Type) (crand_Read : list Z -> list Z * Z * bool) (stream : list Z -> list Z) (size : Z),
+    seed_err crand_Read = false ->
+    exists c0, @DN.NewCounter T (list Z) crand_Read stream size = FnRt.Ok c0 /\
+               DN.Counter_buf c0 = Some [] /\ DN.Counter_cap c0 = size /\
+               DN.Counter_p c0 = 18446744073709551615 /\ DN.Counter_rng c0 = stream (seed_bytes crand_Read).
+Proof. exact @newcounter_fields. Qed.
+Print Assumptions C19_newcounter_fields_source.
+Example C19_newcounter_fields_source_ex :
+  seed_err (fun s : list Z => (s, 32, false)) = false /\
+  option_map (fun c => DN.Counter_cap c) (match @DN.NewCounter Z (list Z) (fun s => (s, 32, false)) (fun s => s) 1024 with FnRt.Ok c => Some c | _ => None end) = Some 1024.
+Proof. split; reflexivity. Qed.
+
 (* The C19 start state at source level: the generated Add, run on the fields of the Counter the
    generated NewCounter returned, is the model's add from its initial state [D.init] with capacity
    size -- for every element type with a decidable equality, every iteration order and fuel above
